@@ -140,10 +140,16 @@ def gen_c03(g, budget, optional=False):
                     else:
                         c = bqlgen.clause(bqlgen.S(c=g.rng.choice(bqlgen.NODE_CONSTS)), bqlgen.P(c=g.rng.choice(bqlgen.PRED_CONSTS)),
                                           bqlgen.O(cell=g.rng.choice(bqlgen.OBJ_CONSTS)), opt=True)
-                    if g.rng.random() < 0.5:
-                        c["o"]["as"] = g.alias(pool, 0)
+                    if g.rng.random() < 0.6:
+                        # the alias is a fresh name or (one time in three) a binding of the pattern
+                        c["o"]["as"] = g.alias(pool, 0.33)
+                    if g.rng.random() < 0.15:
+                        c["s"]["as"] = g.alias(pool, 0.33)
                 pos = g.rng.randint(1, len(cls))
                 cls.insert(pos, c)
+        elif r < 0.1:
+            aj = alias_join(g)
+            cls, content = aj["clauses"], aj["content"]
         elif r < 0.4:
             cls = [mk(p_alias=0.3)]
         elif r < 0.8:
@@ -348,6 +354,8 @@ CONTENTS = [
 def clean_base(g, max_clauses=2, p_alias=0.15):
     """A query of the fragment where C03 holds today (no OPTIONAL, every clause has a binding, aliases
     are fresh names): returns dict(clauses, names, graphs, glo, ghi, alt)."""
+    if max_clauses >= 2 and g.rng.random() < 0.12:
+        return alias_join(g)
     for _ in range(50):
         content = g.rng.choice(CONTENTS + [g.content(6, 12), g.content(8, 14), g.content(10, 16)])
         k = 1 if (max_clauses < 2 or g.rng.random() < 0.7) else g.rng.randint(2, max_clauses)
@@ -372,19 +380,69 @@ def clean_base(g, max_clauses=2, p_alias=0.15):
     raise Infra("could not generate a clean base query")
 
 
+NEAR_GROUPS = [[32, 33, 34], [35, 36, 37, 38], [26, 27, 39], [40, 41], [9, 10, 30, 31], [6, 7, 8, 21], [28, 29, 14]]
+
+
 def broad_base(g):
     """one broad clause over a large content: columns with many values of one kind (numbers incl.
-    negatives and fractions, anchors in several zones / precisions, predicates, ids) to sort and filter"""
-    content = sorted(set(g.content(14, 24)) | set(g.rng.sample([14, 26, 27, 28, 29, 30, 6, 7, 8, 9, 10, 31, 21], 6)))
+    negatives and fractions, anchors in several zones / precisions, predicates, ids) to sort and filter.
+    The content always holds two or three whole near-miss groups (floats that agree in 6 decimals, int64
+    beyond 2^53, one predicate stored in two zones with a third whose text sorts in between, ...)."""
+    must = [t for grp in g.rng.sample(NEAR_GROUPS, g.rng.choice([2, 3])) for t in grp]
+    content = sorted(set(g.content(10, 20)) | set(must))
     r = g.rng.random()
+    oal = lambda: {k: ("?o" + k if g.rng.random() < 0.2 else "") for k in ("ty", "id", "at")}
     if r < 0.3:
         cls = [bqlgen.clause(bqlgen.S(b="?s"), bqlgen.P(pid=g.rng.choice([bqlu.sid("s"), bqlu.sid("q"), bqlu.sid("p")]), ab="?t"), bqlgen.O(b="?o"))]
     elif r < 0.55:
-        cls = [bqlgen.clause(bqlgen.S(b="?s", id="?sid" if g.rng.random() < 0.5 else ""), bqlgen.P(b="?p", at="?t", id="?pid" if g.rng.random() < 0.4 else ""), bqlgen.O(b="?o"))]
+        a = oal()
+        cls = [bqlgen.clause(bqlgen.S(b="?s", id="?sid" if g.rng.random() < 0.5 else ""), bqlgen.P(b="?p", at="?t", id="?pid" if g.rng.random() < 0.4 else ""),
+                             bqlgen.O(b="?o", ty=a["ty"], id=a["id"]))]
     elif r < 0.8:
-        cls = [bqlgen.clause(bqlgen.S(b="?s"), bqlgen.P(c=4), bqlgen.O(b="?o"))]     # "q"@[]: ints, floats, text, bool
+        cls = [bqlgen.clause(bqlgen.S(b="?s"), bqlgen.P(c=g.rng.choice([4, 4, 4, 1])), bqlgen.O(b="?o"))]     # "q"@[]: ints, floats, text, bool
     else:
-        cls = [bqlgen.clause(bqlgen.S(b="?s", ty="?sty" if g.rng.random() < 0.4 else ""), bqlgen.P(b="?p"), bqlgen.O(b="?o", at="?ot" if g.rng.random() < 0.3 else ""))]
+        a = oal()
+        cls = [bqlgen.clause(bqlgen.S(b="?s", ty="?sty" if g.rng.random() < 0.4 else ""), bqlgen.P(b="?p"),
+                             bqlgen.O(b="?o", at=a["at"], ty=a["ty"], id=a["id"]))]
+    return {"clauses": cls, "names": bqlgen.pattern_names(cls), "graphs": g.split(content, g.rng.choice([1, 1, 2])),
+            "glo": 0, "ghi": 0, "alt": False, "content": content}
+
+
+def alias_join(g):
+    """2-3 clauses that are joined through a value EXTRACTED from a component (AT / anchor binding: the instant,
+    ID: the id string, TYPE: the type string) rather than through a component itself; the subject variable is shared,
+    chained (object of one = subject of the next) or independent. Such a join cannot be pushed into the lookup of the
+    later clause: it has to be enforced on the rows."""
+    kind = g.rng.choice(["T", "T", "I", "Y"])
+    k = 2 if g.rng.random() < 0.8 else 3
+    link = g.rng.choice(["same-subject", "same-subject", "chain", "none"])
+    cls = []
+    for i in range(k):
+        sv = "?s" if link == "same-subject" else ("?n%d" % i if link == "chain" else "?s%d" % i)
+        ov = "?n%d" % (i + 1) if link == "chain" else "?o%d" % i
+        s_, p_, o_ = bqlgen.S(b=sv), bqlgen.P(b="?p%d" % i), bqlgen.O(b=ov)
+        if kind == "T":
+            pos = g.rng.choice(["p.at", "p.ab", "p.ab", "o.at", "o.ab"])
+            if pos == "p.at":
+                p_["at"] = "?j"
+            elif pos == "p.ab":
+                p_ = bqlgen.P(pid=g.rng.choice(bqlgen.PIDS), ab="?j")
+            elif pos == "o.at":
+                o_["at"] = "?j"
+            else:
+                o_ = bqlgen.O(pid=g.rng.choice(bqlgen.PIDS), ab="?j")
+        elif kind == "I":
+            pos = g.rng.choice(["s.id", "p.id", "o.id"])
+            {"s.id": s_, "p.id": p_, "o.id": o_}[pos]["id"] = "?j"
+        else:
+            pos = g.rng.choice(["s.ty", "o.ty"])
+            {"s.ty": s_, "o.ty": o_}[pos]["ty"] = "?j"
+        if g.rng.random() < 0.15:
+            s_ = bqlgen.S(c=g.rng.choice(bqlgen.NODE_CONSTS), id=s_["id"], ty=s_["ty"])
+        cls.append(bqlgen.clause(s_, p_, o_))
+    must = [t for grp in g.rng.sample(NEAR_GROUPS, 2) for t in grp]
+    content = sorted(set(g.content(8, 16)) | set(must) | set(g.rng.sample([15, 16, 17, 2, 3, 13, 14, 20, 23, 24], 4)))
+    # the known finding oid-alias-unchecked needs a node-object ID alias repeated INSIDE one clause: not produced here
     return {"clauses": cls, "names": bqlgen.pattern_names(cls), "graphs": g.split(content, g.rng.choice([1, 1, 2])),
             "glo": 0, "ghi": 0, "alt": False, "content": content}
 
@@ -475,6 +533,8 @@ def check_group(v, tier, d):
     plans = []
     for _ in range(n):
         base = clean_base(g, max_clauses=2, p_alias=0.1)
+        if g.rng.random() < 0.3:
+            base = broad_base(g)
         names = base["names"]
         if len(names) < 2:
             continue
@@ -546,7 +606,7 @@ def check_group(v, tier, d):
 # ------------------------------------------------------------------------------------------ C12 ORDER BY / LIMIT
 def check_order(v, tier, d):
     g = Gen(vlib.seed() * 7919 + 12)
-    n = 1200 if tier == "quick" else 30000
+    n = 3000 if tier == "quick" else 40000
     b = Batch()
     plans = []
     for _ in range(n):
@@ -647,12 +707,13 @@ def check_order(v, tier, d):
 
 
 # ------------------------------------------------------------------------------------------ C13 HAVING
-CONST_POOL = [bqlu.I(-5), bqlu.I(-3), bqlu.I(-4), bqlu.I(0), bqlu.I(2), bqlu.I(1), bqlu.F(5), bqlu.F(-2), bqlu.F(-6), bqlu.F(0),
+CONST_POOL = [bqlu.I(bqlu.BIG), bqlu.I(bqlu.BIG + 1), bqlu.I(-(bqlu.BIG + 1)), bqlu.FE(bqlu.FSCALE + 1), bqlu.FE(bqlu.FSCALE + 2), bqlu.FE(3), bqlu.FE(5),
+              bqlu.I(-5), bqlu.I(-3), bqlu.I(-4), bqlu.I(0), bqlu.I(2), bqlu.I(1), bqlu.F(5), bqlu.F(-2), bqlu.F(-6), bqlu.F(0),
               bqlu.X("a"), bqlu.X("b"), bqlu.X("ab"), bqlu.B(1), bqlu.N(1), bqlu.N(2), bqlu.P(1), bqlu.P(2), bqlu.P(12),
               {"k": "T", "v": 2}, {"k": "T", "v": 3}, {"k": "T", "v": 4}, {"k": "T", "v": 5}, {"k": "T", "v": 6}]
 
 
-def gen_expr(g, cols, depth, nodes, colkinds):
+def gen_expr(g, cols, depth, nodes, colkinds, colvals=None):
     """appends nodes of a random expression over output columns; returns (index, text). Shape follows
     the grammar: E := atom | NOT E | ( E ) | ( E ) AND E | ( E ) OR E"""
     r = g.rng.random()
@@ -672,31 +733,37 @@ def gen_expr(g, cols, depth, nodes, colkinds):
         kinds = colkinds[lc]
         pool = [c for c in CONST_POOL if c["k"] in kinds or (c["k"] == "X" and "S" in kinds)] if kinds and g.rng.random() < 0.8 else CONST_POOL
         c = g.rng.choice(pool or CONST_POOL)
+        # half of the time a value that occurs in the column itself (sharp boundaries for = < >)
+        own = [x for x in (colvals[lc] if colvals else []) if x["k"] in ("I", "F", "X", "B", "N", "P", "T")]
+        if own and g.rng.random() < 0.5:
+            c = g.rng.choice(own)
         node["rk"], node["rv"] = c["k"], c["v"]
         return idx, "%s %s %s" % (cols[lc], node["cop"], bqlu.cell_text(c, alt=g.rng.random() < 0.3))
     if r < 0.55:
         node = dict(blank, op="not")
         nodes.append(node)
-        node["l"], t = gen_expr(g, cols, depth - 1, nodes, colkinds)
+        node["l"], t = gen_expr(g, cols, depth - 1, nodes, colkinds, colvals)
         return idx, "NOT " + t
     if r < 0.65:
-        return (lambda it: (it[0], "( %s )" % it[1]))(gen_expr(g, cols, depth - 1, nodes, colkinds))
+        return (lambda it: (it[0], "( %s )" % it[1]))(gen_expr(g, cols, depth - 1, nodes, colkinds, colvals))
     node = dict(blank, op=g.rng.choice(["and", "or"]))
     nodes.append(node)
-    node["l"], tl = gen_expr(g, cols, depth - 1, nodes, colkinds)
-    node["r"], tr = gen_expr(g, cols, depth - 1, nodes, colkinds)
+    node["l"], tl = gen_expr(g, cols, depth - 1, nodes, colkinds, colvals)
+    node["r"], tr = gen_expr(g, cols, depth - 1, nodes, colkinds, colvals)
     return idx, "( %s ) %s %s" % (tl, node["op"].upper(), tr)
 
 
 def check_having(v, tier, d):
     g = Gen(vlib.seed() * 7919 + 13)
-    n = 1500 if tier == "quick" else 40000
+    n = 3000 if tier == "quick" else 50000
     # pass 1: base queries (without HAVING) to learn the kinds of their columns
     b1 = Batch()
     bases = []
     for _ in range(n):
         base = clean_base(g, max_clauses=2, p_alias=0.3)
-        if g.rng.random() < 0.5:
+        if g.rng.random() < 0.25:
+            base = broad_base(g)
+        elif g.rng.random() < 0.5:
             # broad one-clause patterns over a large content: many rows of several kinds to filter
             content = g.content(12, 22)
             o = bqlgen.O(b="?o")
@@ -730,8 +797,9 @@ def check_having(v, tier, d):
         if eb:
             continue
         colkinds = [set(r[i]["k"] for r in rb) for i in range(len(outnames))]
+        colvals = [[r[i] for r in rb] for i in range(len(outnames))]
         nodes = []
-        _, text = gen_expr(g, outnames, g.rng.choice([0, 1, 2, 3]), nodes, colkinds)
+        _, text = gen_expr(g, outnames, g.rng.choice([0, 1, 2, 3]), nodes, colkinds, colvals)
         hb = b.add(base["graphs"], sel_text(base, sel, **kw))
         hh = b.add(base["graphs"], sel_text(base, sel, having=text, **kw))
         plans.append((outnames, nodes, text, hb, hh))
@@ -776,11 +844,13 @@ def rename(q, mapping):
 def check_meta(v, tier, d):
     import itertools
     g = Gen(vlib.seed() * 7919 + 14)
-    n = 500 if tier == "quick" else 8000
+    n = 800 if tier == "quick" else 10000
     b = Batch()
     plans = []
     for _ in range(n):
         base = clean_base(g, max_clauses=3, p_alias=0.15)
+        if g.rng.random() < 0.15:
+            base = broad_base(g)
         if g.rng.random() < 0.3:
             # add a fully specified clause (a stored triple, sometimes a missing one), with or without
             # an alias, at a random position: it holds or not whatever its position
@@ -827,6 +897,12 @@ def check_meta(v, tier, d):
         order = [(x, g.rng.random() < 0.3) for x in names]
         ho = b.add(one, sel_text(dict(base, graphs=one), names, order=order))
         variants.append(("seq-of", names, b.add(one, sel_text(dict(base, graphs=one), names, order=order), procs=1, chan=1), "total order repeat", ho))
+        variants.append(("seq-of", names, b.add(one, sel_text(dict(base, graphs=one), names, order=order), procs=16, chan=0), "total order repeat (16 procs)", ho))
+        parts = g.split(content, 2)
+        variants.append(("seq-of", names, b.add(parts, sel_text(dict(base, graphs=parts), names, order=order)), "total order over a partition of the data", ho))
+        if len(base["clauses"]) > 1:
+            q4 = dict(base, graphs=one, clauses=list(reversed(base["clauses"])))
+            variants.append(("seq-of", names, b.add(one, sel_text(q4, names, order=order)), "total order with the clauses reversed", ho))
         plans.append((base, names, hb, variants))
     b.run(d, "C14")
     events, meta, stats = [], [], {"skipped_perr": 0}
